@@ -6,6 +6,7 @@ T: tools/gen_lcd.py regenerates Gallina from the CURRENT check_for_loopcarried_d
    them; the regenerated definitions are evaluated by Coq (binary64) on the recorded real runs and compared bit for bit.
 X: Model/Deps.lcd_entries = get_loopcarried_dependencies() (keys, member lines, latencies bit for bit).
 Search: independent enumeration of winding-number-1 cycles over the reference RAW relation of two iterations."""
+import c04_family
 import depcheck
 import deps
 import lcd_gen
@@ -50,7 +51,7 @@ def run(ctx):
     recs = []
     cases = []
     nref = 0
-    for case, kernel, dg, isa, gl, pipe in depcheck.synthetic(ctx, ctx.n(120, 2500), maxlen=10, regs_only=True):
+    for case, kernel, dg, isa, gl, pipe in c04_family.guarded_synthetic(ctx, ctx.n(120, 2500), key="lcd-raises", maxlen=10, regs_only=True):
         ctx.count()
         if case["lcd"]:
             ctx.nontriv((case["text"], case["db"]["isa_yaml"], case["flagdeps"]))
@@ -61,12 +62,12 @@ def run(ctx):
             ctx.sample({"kernel": case["text"], "lcd": case["lcd"]})
         cases.append(case)
         record(ctx, recs, kernel, dg, case["flagdeps"])
-    for case, kernel, dg, isa, gl, pipe in depcheck.synthetic(ctx, ctx.n(40, 600), maxlen=10):
+    for case, kernel, dg, isa, gl, pipe in c04_family.guarded_synthetic(ctx, ctx.n(40, 600), key="lcd-raises", maxlen=10):
         ctx.count()
         cases.append(case)
         record(ctx, recs, kernel, dg, case["flagdeps"])
     # kernels whose line numbers lie beyond 1000 (offset computation)
-    for case0, kernel, dg, isa, gl, pipe in depcheck.synthetic(ctx, ctx.n(10, 100), maxlen=6, regs_only=True):
+    for case0, kernel, dg, isa, gl, pipe in c04_family.guarded_synthetic(ctx, ctx.n(10, 100), key="lcd-raises", maxlen=6, regs_only=True):
         text = "\n" * ctx.rng.choice([999, 1000, 1200, 2500]) + case0["text"]
         try:
             case, kernel, dg = deps.build_case(pipe, text, case0["flagdeps"])
